@@ -14,6 +14,7 @@
 #include <sys/socket.h>
 #include <sys/un.h>
 #include <sys/select.h>
+#include <poll.h>
 #include <sys/time.h>
 
 typedef struct kobj {
@@ -405,6 +406,7 @@ int sim_fcntl(int fd, int cmd, ...)
     if (cmd == F_GETFL) return e->k->flags | O_RDWR;
     if (cmd == F_SETFL) { simfd_progress++; e->k->flags = (int)arg & (O_NONBLOCK | O_APPEND); tr_printf("fcntl fd%d nonblock=%d", fd, !!(arg & O_NONBLOCK)); return 0; }
     if (cmd == F_GETFD || cmd == F_SETFD) return 0;
+    if (cmd == F_DUPFD || cmd == F_DUPFD_CLOEXEC) return sim_dup(fd);      /* (the lowest-number argument is not honoured: simulated numbers are handed out in order anyway) */
     errno = EINVAL;
     return -1;
 }
@@ -583,6 +585,36 @@ int sim_select(int nfds, fd_set *r, fd_set *w, fd_set *x, struct timeval *tv)
         }
     }
     if (x) FD_ZERO(x);
+    return n;
+}
+
+/* poll(): the same readiness rules as select() above, for libraries that prefer it.  Nothing ready and a timeout: the simulated clock advances
+   by the timeout (all of it; nobody wakes a poller early in this simulator) and 0 is returned; descriptors that are not simulated are
+   reported as not open. */
+int sim_poll(struct pollfd *fds, nfds_t nfds, int timeout_ms)
+{
+    int n = 0;
+    sim_step();
+    task_yield();
+    for (nfds_t i = 0; i < nfds; i++) {
+        fdent_t *e;
+        fds[i].revents = 0;
+        if (fds[i].fd < 0) continue;
+        e = is_sim(fds[i].fd) ? ent(fds[i].fd) : NULL;
+        if (!e || !e->k) { fds[i].revents = POLLNVAL; n++; continue; }
+        if (fds[i].events & (POLLIN | POLLRDNORM)) {
+            int ok = e->k->type == KO_LISTENER ? e->k->nbacklog > 0 : e->k->type == KO_SOCK ? readable_now(e->k) : e->k->type != KO_RAWSOCK;
+            if (ok) fds[i].revents |= (short)(fds[i].events & (POLLIN | POLLRDNORM));
+        }
+        if (fds[i].events & (POLLOUT | POLLWRNORM)) {
+            int ok = e->k->type == KO_SOCK ? writable_now(e->k) : 0;
+            if (ok) fds[i].revents |= (short)(fds[i].events & (POLLOUT | POLLWRNORM));
+        }
+        if (fds[i].revents) n++;
+    }
+    probe_hit("poll_called");
+    if (!n && timeout_ms > 0) task_sleep_us((int64_t)timeout_ms * 1000);
+    tr_printf("poll %d descriptors -> %d", (int)nfds, n);
     return n;
 }
 
